@@ -3,7 +3,7 @@ CONSTANTS
   GroupLists <- Groups4
   GroupThreshold = 2
   ClientHonest = 2
-  Envs <- AllEnvs
+  Envs <- SomeEnvs
   AdvKinds <- AllAdv
   MaxAdversarial = 2
   StrictVerify = TRUE
